@@ -10,8 +10,8 @@ CLAIMED = {
     text="Theorems for ALL histories/schedules/fault plans over the executable manager model: every reachable state satisfies the registry invariant (run_safe), hence the recipient snapshot of forward_message is duplicate-free for every type but the ALL sentinel (exactly once), contains only registered open modules that subscribed to the type or to all types; generated destination guards = protocol ranges; destination filter as stated; invalid destination -> nobody; a successful write carries the published header with only msg_count stamped. The byte-level end-to-end statement is decided by differential execution (model vs real MessageManager on scripted histories incl. every service order the script chooses, unwritable subsets, loggers, both header layouts) plus an independent spec oracle over a monitor's complete stream.",
     note=MGR_NOTE, technique="Coq invariant proof over an executable state machine (Hoare logic, induction on histories and nesting fuel) + model/implementation correspondence by vm_compute + spec oracle", design="6/C01"),
  "C03": dict(
-    text="Theorem C03_never_crashes: for every configuration, every nesting budget and EVERY finite history of events (any header field any integer, any declared length, any name bytes, EOF/reset/truncation anywhere, any service order, any writable sets, any set of simultaneous write failures, any number of connections) the model of MessageManager.run() never raises - the only non-Ok outcome is exhaustion of the model's explicit nesting budget - and every reachable state satisfies the registry/identity invariants. Every partial operation of manager.py (recv_into sizes, ctypes array indexing, ascii decoding, writes to closed sockets, set/dict mutation during iteration, del of a missing key, dynamic-id exhaustion) is an explicit Crash in the model, so the theorem is about exactly those. Tied to the code by regenerated guards and by differential execution incl. malformed and fault streams; 8 crash defects of the pinned tree were found this way and repaired (fix: commits).",
-    note=MGR_NOTE, technique="Coq proof of totality + invariant (Hoare logic with in-flight-removal set, frame relation) + correspondence + fault/malformed-input enumeration", design="6/C03"),
+    text="Theorems over the executable manager model for every configuration and EVERY finite history of events (any header field any integer, any declared length, any name bytes, EOF/reset/truncation anywhere, any service order, any writable sets, any set of simultaneous send failures): C03_total - with a nesting budget of 2*(accepted connections+1)+2 the manager runs to completion, never raising anything, in a state satisfying the step invariant (registry consistent, ids unique) - proved through C03_fuel_bound (with n live modules forward_message and everything it re-enters needs at most 2n+2 nested calls); C03_never_crashes (any budget: the only non-Ok outcome is exhausting it). The implementation's budget is Python's recursion limit: the deep-cascade history (300 subscribers failing at once) exhausts it - recorded open finding crash:RecursionError:deep-cascade, run against the implementation on every check. Tied to manager.py by the constants/guards translator and by differential execution of scripted histories (fake sockets) incl. boundary values of every header field, pairs of failures in both service orders, hundreds of connections.",
+    note=MGR_NOTE, technique="Coq proof of totality under an explicit nesting budget (Hoare logic with in-flight-removal set, frame relation, liveness measure) + correspondence + fault/malformed-input enumeration", design="6/C03"),
  "C05": dict(
     text="Theorems for ALL histories (any events, faults, schedules, fuel): C05_stream_frames - everything the manager has written to a connection is a concatenation of whole frames (header then its payload, nothing in between) whose stamped sequence numbers are exactly 1..n, optionally followed by ONE lone header numbered n+1 on a connection that is dead (payload sendall failed); acknowledgements, failure notices, periodic messages and forwarded messages share the one counter; C05_append_only / C05_per_connection_order / C05_service_appends - the global write log only grows, so each connection's stream is a projection of one total order (same relative order at every receiver, sender order preserved). Declared payload sizes are proved at call-site level (C05_forward_sized, C05_failed_notice_sized, C05_ack_is_whole_frame) and compared byte-for-byte by the correspondence. Tied to manager.py by the translator and by differential execution of scripted histories.",
     note=MGR_NOTE, technique="Coq invariant proof over every reachable state of an executable state machine (generic out-invariant traversal of all manager operations) + correspondence by vm_compute + stream oracle", design="6/C05"),
